@@ -92,6 +92,19 @@ def run(chk):
     chk.compare("hostile-archives", cases, impl, model, nontrivial=lambda c, r: r != "notar", spec=False)   # consistency is judged by check_consistency
     for c, i in zip(cases, impl):
         check_consistency(chk, c, i, len(c[1][0]))
+    # the reader underneath: the same hostile bytes behind an io.ReaderAt that reports EOF with the last bytes, behind an
+    # open-ended SectionReader (Size() far beyond the data) or a reader whose cursor was moved give the same outcome
+    k = max(1, len(cases) // chk.n(700, 7000))
+    for mode in (b"eagereof", b"bigsection", b"sniff"):
+        rc = [("ariterlazy", [c[1][0], mode]) for c in cases[::k]]
+        ri = chk.run_impl(rc)
+        chk.record("reader-" + mode.decode(), rc, ri)
+        for c, a, b in zip(rc, ri, impl[::k]):
+            if a != b:
+                chk.violate({"kind": "property", "case": lib.show_case(c), "plain_reader": b[:800], "this_reader": a[:800],
+                             "explanation": "the same bytes give another outcome (members, sizes, delivered bytes or end) through another kind of io.ReaderAt (%s)" % mode.decode()})
+            else:
+                check_consistency(chk, c, a, len(c[1][0]))
     # repeated loads give the same outcome
     again = chk.run_impl(cases[::5])
     for c, a, b in zip(cases[::5], impl[::5], again):
